@@ -6,21 +6,24 @@
 EXTENDS Search
 CONSTANTS DomainLists
 DLs == { <<>>, <<"d1">>, <<"d1", "d2">>, <<"d1", ".">>, <<".", "d1">>, <<".">> }
-Shapes == { [name |-> "n", wname |-> "n", dots |-> 0, enddot |-> 0],
-            [name |-> "n.", wname |-> "n", dots |-> 1, enddot |-> 1],
-            [name |-> "n.a", wname |-> "n.a", dots |-> 1, enddot |-> 0],
-            [name |-> "n.a.b", wname |-> "n.a.b", dots |-> 2, enddot |-> 0],
-            [name |-> "n.a.b.", wname |-> "n.a.b", dots |-> 3, enddot |-> 1],
-            [name |-> "n\\.x", wname |-> "n\\.x", dots |-> 1, enddot |-> 0] }
-MInit == /\ \E d \in DomainLists, nd \in 0..3, ns \in {0, 1} : scfg = [ndots |-> nd, domains |-> d, nosearch |-> ns]
+Shapes == { [name |-> "n", wname |-> "n", lname |-> "n", dots |-> 0, enddot |-> 0],
+            [name |-> "n1", wname |-> "n1", lname |-> "n1", dots |-> 0, enddot |-> 0],
+            [name |-> "N1", wname |-> "N1", lname |-> "n1", dots |-> 0, enddot |-> 0],
+            [name |-> "n.", wname |-> "n", lname |-> "n", dots |-> 1, enddot |-> 1],
+            [name |-> "n.a", wname |-> "n.a", lname |-> "n.a", dots |-> 1, enddot |-> 0],
+            [name |-> "n.a.b", wname |-> "n.a.b", lname |-> "n.a.b", dots |-> 2, enddot |-> 0],
+            [name |-> "n.a.b.", wname |-> "n.a.b", lname |-> "n.a.b", dots |-> 3, enddot |-> 1],
+            [name |-> "n\\.x", wname |-> "n\\.x", lname |-> "n\\.x", dots |-> 1, enddot |-> 0] }
+MInit == /\ \E d \in DomainLists, nd \in 0..3, ns \in {0, 1}, na \in {0, 1}, ha \in {0, 1} :
+              scfg = [ndots |-> nd, domains |-> d, nosearch |-> ns, noaliases |-> na, hostaliases |-> ha]
          /\ sr = <<>> /\ sqm = <<>>
 MNext == UNCHANGED sxvars
-CandidatesMatchReference == \A s \in Shapes : RefOk(s.name, s.wname, s.dots, s.enddot)
+CandidatesMatchReference == \A s \in Shapes : RefOk(s.name, s.wname, s.lname, s.dots, s.enddot)
 (* only the as-is candidate of a dot-less name is a single label *)
 SingleOnlyForBareName ==
-  \A s \in Shapes : LET c == Candidates(s.name, s.wname, s.dots, s.enddot) IN
-     \A i \in 1..Len(c) : c[i].single <=> (c[i].txt = s.name /\ s.dots = 0)
+  \A s \in Shapes : LET c == Candidates(s.name, s.wname, s.lname, s.dots, s.enddot) IN
+     \A i \in 1..Len(c) : c[i].single <=> (c[i].txt = s.name /\ s.dots = 0 /\ ~AliasApplies(s.lname, s.dots))
 (* every candidate's wire name is its text without one trailing dot *)
-WireIsTextSansDot == \A s \in Shapes : LET c == Candidates(s.name, s.wname, s.dots, s.enddot) IN
+WireIsTextSansDot == \A s \in Shapes : LET c == Candidates(s.name, s.wname, s.lname, s.dots, s.enddot) IN
      \A i \in 1..Len(c) : c[i].wire = c[i].txt \/ c[i].wire \o "." = c[i].txt
 =============================================================================
